@@ -142,14 +142,13 @@ def gen_cases(rng, tier):
     # ---- (ii)+(iii) validators and solvers
     ms = lambda: rng.randrange(1, 10 ** 9)
     muts = "one" if q else "all"
-    dhi = 12 if q else 16
-    hs_d = [0, 6, 8, 10, 12, rng.randint(6, 12)] if q else [0, 1, 2, 3, 4, 5] + list(range(6, 17)) * 2 + [rng.randint(6, 16) for _ in range(10)]
+    hs_d = [0, 6, 8, 10, 12, rng.randint(6, 12)] if q else [0, 1, 2, 3, 4, 5] + list(range(6, 17)) * 2 + [rng.randint(6, 16) for _ in range(10)] + [17, 18]
     for d in hs_d:
         L.append(case_line("handshake", fields_of("handshake", rng, q), d, muts=muts, mseed=ms()))        # node and CLI
-    ann_d = [0, 6, 9, 12] if q else [0, 1, 3, 5] + list(range(6, 17)) + [rng.randint(6, 16) for _ in range(8)]
+    ann_d = [0, 6, 9, 12] if q else [0, 1, 3, 5] + list(range(6, 17)) + [rng.randint(6, 16) for _ in range(8)] + [17, 18]
     for d in ann_d:
         L.append(case_line("announce", fields_of("announce", rng, q), d, muts=muts, mseed=ms()))
-    st_d = [0, 6, 8, 10, 12, rng.randint(6, 12)] if q else [0, 1, 2, 4] + list(range(6, 17)) * 2 + [rng.randint(6, 16) for _ in range(8)] + [25, 200, 255]
+    st_d = [0, 6, 8, 10, 12, rng.randint(6, 12)] if q else [0, 1, 2, 4] + list(range(6, 17)) * 2 + [rng.randint(6, 16) for _ in range(8)] + [17, 18, 25, 200, 255]
     for d in st_d:
         L.append(case_line("store", fields_of("store", rng, q), d, muts=muts, mseed=ms()))
     # given (unsolved) nonces: mostly the rejecting side, all difficulties
@@ -160,7 +159,7 @@ def gen_cases(rng, tier):
     for w in _witnesses():
         L.append(case_line(w["surface"], {k: bytes.fromhex(v) for k, v in w["fields"].items()}, 24, nonce=w["nonce"], kind="witness"))
     # token: observed through the solver's search
-    for d in ([6, 8, 10] if q else list(range(5, 15)) + [rng.randint(5, 14) for _ in range(6)]):
+    for d in ([6, 8, 10] if q else list(range(5, 17)) + [rng.randint(5, 14) for _ in range(6)]):
         L.append(tok_line(fields_of("token", rng, q), d, 500000, "prev", muts=muts, mseed=ms(), on="node"))
     for d in ([7, 9] if q else [5, 6, 8, 10, 11, 12, 13]):
         L.append(tok_line(fields_of("token", rng, q), d, 250000, "prev", muts=muts, mseed=ms(), on="cli"))
@@ -354,7 +353,7 @@ def run(chk):
     check_not_vacuous(st, events, chk.tier, len(WITNESSES))
     chk.assumptions += [
         "the oracle is the TLA+ reference: spec/Pow.tla (field layouts restated in its header, pinned by layout vectors in spec/PowLemmas.tla) over spec/Sha256.tla (FIPS 180-4 vectors as ASSUMEs)",
-        "exploration, not proof: all inputs listed in the rule, not all field values / nonces; solved difficulties 0..12 (quick) / 0..16 (thorough) plus pre-mined 24-bit witnesses",
+        "exploration, not proof: all inputs listed in the rule, not all field values / nonces; solved difficulties 0..12 (quick) / 0..18 (thorough; a solver may give up within its 500000 attempts above 16, which the statement allows) plus pre-mined 24-bit witnesses",
         "the bootstrap-token surface has no validator in the code besides the solver's own search; it is observed through solve_token_challenge / the CLI's compute_bootstrap_token "
         "(result n => n accepted and 0..n-1 rejected) and through digest_meets_difficulty on digests of material composed by the harness",
         "handshake / announce difficulties above 24: the node clamps its configuration (sanitize_config) and the validator functions are uncapped; a verdict is accepted as right if it "
